@@ -29,8 +29,8 @@ def mutants(prog):
         ("sobel weights", Im, "spatial_derivatives", "avg_kernel /= avg_kernel.sum()", "avg_kernel /= 3", "T5.first-order"),
         ("divergence key", Fm, "divergence", "div = value if div is None else div.add_(value)", "div = value if div is None else div.sub_(value)", "T5.jacobian"),
         ("add identity offdiag", Fm, "jacobian_dict", "if add_identity:", "if False:", "T5.jacobian"),
+        ("fd spacing of the first item", Im, "spatial_derivatives", "fd_spacing = spacing[:, sdim]", "fd_spacing = spacing[0, sdim]", "T5.batch-spacing"),
     ]
     for name, mod, fn, old, new, expect in specs:
         ov = source_sub(prog, mod, fn, old, new)
-        if ov is not None:
-            yield (name, ov, expect)
+        yield (name if ov is not None else name + " [spec does not apply]", ov, expect)
